@@ -141,6 +141,9 @@ func c18(r *Report) {
 		}
 		for _, name := range []string{"io/ioutil.ReadAll", "(*encoding/json.Decoder).Decode", "M/trafficshape.parseShapes"} {
 			cs := plainCalls(sh, name)
+			if name == "io/ioutil.ReadAll" {
+				cs = plainCalls(sh, "io/ioutil.ReadAll", "io.ReadAll")
+			}
 			if len(cs) != 1 {
 				r.Fail("path", "(*M/trafficshape.Handler).ServeHTTP: nothing changes unless "+name+" succeeded", fmt.Sprintf("found %d calls", len(cs)), nil, sh.Pos())
 				continue
